@@ -35,7 +35,8 @@ namespace nmtools::array
         using resolver_t = eval_result_t<>;
         return eval(a,context_t{},output_t{},meta::as_value_v<resolver_t>);
         #else
-        auto slices_pack = nmtools_tuple{slices...};
+        // NOTE: spell out the element types, with CTAD a single tuple argument is copied instead of wrapped
+        auto slices_pack = nmtools_tuple<slices_t...>{slices...};
         return apply_slice(array,slices_pack);
         #endif
     }
